@@ -4,7 +4,7 @@ import numpy as np
 from common import *
 
 ID = "C06"
-THEOREM_FILES = ["Summer.Props.C06"]
+THEOREM_FILES = ["Summer.Props.C06", "Summer.Props.C08Source"]
 TASK = "task"
 RULE = ("programs with literal / parameterised / expression-valued distributions and splits, full and partial stratifications, "
         "population-split adjustments after the last stratification, optional whole-population array; observables "
